@@ -280,7 +280,7 @@ class Backend:
         if resp_page is not None and len(changed) > resp_page:
             head, rest = changed[:resp_page], changed[resp_page:]
             nm = "resp-%d" % self.token_n
-            self._pending_pages[nm] = (rest, resp_page, "dt")
+            self._pending_pages[nm] = (rest, max(1, resp_page), "dt")  # resp_page 0 = an empty first page; the pages behind it hold one operation each
             changed = head
         out = {"CheckpointToken": tok, "NewExecutionState": {"Operations": changed}}
         if nm:
